@@ -204,12 +204,12 @@ public:
       const Scalar th2 = a_in.squaredNorm();
       const Scalar th  = sqrt(th2);
 
-      if (th2 < Scalar(eps2)) {
+      if (th2 < Scalar(eps2_hess)) {
         return {
-          Scalar(0.5) - th2 / 24,
-          Scalar(1. / 6) - th2 / 120,
-          -Scalar(1) / 48,
-          -Scalar(1) / 60,
+          Scalar(0.5) - th2 / 24 + th2 * th2 / 720,
+          Scalar(1. / 6) - th2 / 120 + th2 * th2 / 5040,
+          -Scalar(1) / 12 + th2 / 180,
+          -Scalar(1) / 60 + th2 / 1260,
         };
       } else {
         const Scalar sTh = sin(th);
@@ -256,10 +256,10 @@ public:
 
       const Scalar th2 = a_in.squaredNorm();
       const Scalar th  = sqrt(th2);
-      if (th2 < Scalar(eps2)) {
+      if (th2 < Scalar(eps2_hess)) {
         return {
-          Scalar(1) / Scalar(12) + th2 / Scalar(720),
-          Scalar(1) / Scalar(360),
+          Scalar(1) / Scalar(12) + th2 / Scalar(720) + th2 * th2 / Scalar(30240),
+          Scalar(1) / Scalar(360) + th2 / Scalar(7560),
         };
       } else {
         const Scalar th3 = th2 * th;
